@@ -1,6 +1,8 @@
 (* BiffRec.v — model of the BIFF8 worksheet-substream reader of calamine (src/xls.rs):
    RecordIter (record framing with CONTINUE collection), the sheet loop of parse_workbook
-   (record-type dispatch, fmla_pos and the STRING record that follows a FORMULA), parse_number,
+   (the count of open substreams: records of a substream nested in the sheet are skipped and only
+   the sheet's own EOF ends it; record-type dispatch, fmla_pos and the STRING record that follows
+   a FORMULA), parse_number,
    parse_rk, parse_mul_rk, parse_label_sst, parse_label/parse_string, parse_bool_err/parse_err,
    parse_formula_value, parse_dimensions, ending in Range::from_sparse (Range.v); then the
    specification side: logical items, what they denote, and the encoder.
